@@ -426,7 +426,7 @@ def run(tier='quick', repo=None):
     # the tail hint of segmented blocks never keeps pointing at freed segments
     # (path rule shared with C03 R-cache-end: a dangling cached_end_ubuf is a use after free on the next append)
     from rules import c03
-    sub = c03.run(tier=tier, repo=repo)
+    sub = c03.run(tier=tier, repo=repo, model=False)
     for o in sub.obs:
         if o.rule == 'R-cache-end':
             rep.add('R-core', 'block-tail-hint:' + o.instance, o.status, o.loc, **o.detail)
